@@ -715,6 +715,12 @@ func (ex *Exec) assertAt(st *State, callee string, vars map[string]Val) {
 		return
 	}
 	for _, key := range []string{callee} {
+		if len(ex.contract.asserts[key]) > 0 {
+			if ex.assertSeen == nil {
+				ex.assertSeen = map[string]bool{}
+			}
+			ex.assertSeen[key] = true
+		}
 		for _, a := range ex.contract.asserts[key] {
 			e := &env{vars: vars}
 			g := ex.evalBool(st, a.expr, e)
